@@ -96,7 +96,24 @@ func runHist(c *caseT) string {
 			doc := buildDoc(op.Doc)
 			before := render(doc)
 			recs[op.Slot].take()
+			if len(op.Reenter) > 0 && string(op.Reenter) != "null" {
+				other := buildDoc(op.Reenter)
+				rc := recs[op.Slot]
+				reenterHook = func() {
+					rc.mu.Lock()
+					rc.muted = true
+					rc.mu.Unlock()
+					defer func() {
+						recover()
+						rc.mu.Lock()
+						rc.muted = false
+						rc.mu.Unlock()
+					}()
+					f(other)
+				}
+			}
 			res, eobs := evalObs(f, doc)
+			reenterHook = nil
 			fmt.Fprintf(&b, "\tO%d=%s|%s", k, eobs, recs[op.Slot].take())
 			if render(doc) != before {
 				fmt.Fprintf(&b, "!mutated")
